@@ -120,6 +120,12 @@ SPECS = [
     _http("GET", "http", "example.com", 8080, "/path with space", resp=_resp(418, [(CT, b"text/teapot")], b"I'm a teapot"), dst=("example.com", 8080)),
     _http("PATCH", "http", "EXAMPLE.COM", 80, "/UPPER/Case", qh=[(CT, b"Text/Plain")], qbody=b"MiXeD CaSe", resp=_resp(200, [(CT, b"text/plain")], b"DONE")),
     _http("GET", "http", "tilde.example.com", 80, "/~user/index.html", resp=_resp(200, [(CT, b"text/html")], b"back\\slash and ~tilde and 'single' \"double\"")),
+    # repeated header fields: every line counts (only the second Content-Type line is an asset type / json / css)
+    _http("GET", "http", "dup1.example.com", 80, "/two-content-types",
+          resp=_resp(200, [(CT, b"text/plain"), (b"x-dup", b"first"), (CT, b"image/svg+xml"), (b"x-dup", b"second one")], b"<svg/>")),
+    _http("POST", "http", "dup2.example.com", 80, "/two-request-content-types",
+          qh=[(CT, b"application/octet-stream"), (b"Content-Type", b"application/json; charset=utf-8"), (b"cookie", b"a=1"), (b"cookie", b"b=2")],
+          qbody=b"{}", resp=_resp(200, [(b"set-cookie", b"s=1"), (b"Content-Type", b"text/html"), (b"set-cookie", b"t=2; HttpOnly"), (b"content-type", b"text/css")], b"body{}")),
     # Content-Encoding headers that do not fit the bytes: the body filters look at the bytes as they are
     _http("GET", "http", "enc1.example.com", 80, "/notgzip", resp=_resp(200, [(CT, b"text/plain"), (CE, b"gzip")], _NOTGZ, raw=_NOTGZ)),
     _http("POST", "http", "enc2.example.com", 80, "/notbr", qh=[(CT, b"application/json"), (CE, b"br")], qbody=b'{"plain": "json 42"}', qraw=b'{"plain": "json 42"}',
